@@ -162,6 +162,16 @@ func checkC04(ctx *Ctx) {
 					}
 				}
 			}
+			// probes that carry build metadata / a local label made of the words and shapes that
+			// pre-release detection looks for (1.5.0+g1a2b3c4, +1.a1, +7.rc1): a label is opaque
+			if it%2 == 0 {
+				base := probes[r.Intn(len(probes))]
+				for _, x := range markerMetadata(r, base.s) {
+					if px := e.Parse(x); px.OK && isASCII(x) && strings.TrimSpace(x) == x {
+						probes = append(probes, probeT{x, px.Val})
+					}
+				}
+			}
 			for _, pb := range probes {
 				want := unionSpec(e, scheme, cs, pb.v)
 				ok, isErr, pan := versContains(rng, pb.s)
